@@ -59,7 +59,7 @@ pub fn run(seed: u64, count: usize, _thorough: bool, out: &mut Out, tmp: &str) {
     let mut rng = Rng::new(seed);
     // ---------- 1. the options as filters, PDB ----------
     for i in 0..count {
-        let cfg = Cfg { metadata: true, wraps: i % 7 == 0, blank_chains: i % 3 == 0 };
+        let cfg = Cfg { metadata: true, wraps: i % 7 == 0, blank_chains: i % 3 == 0, annotations: false };
         let mut recs = pdbgen::records(&mut rng, &cfg);
         // hydrogens anywhere, including first
         if i % 2 == 0 {
@@ -163,12 +163,12 @@ pub fn run(seed: u64, count: usize, _thorough: bool, out: &mut Out, tmp: &str) {
     let _ = std::fs::remove_dir_all(&dir);
     std::fs::create_dir_all(&dir).expect("tmp dir");
     // a text on which every option makes a difference: several models, a hydrogen first, metadata
-    let mut pdb_recs = pdbgen::records(&mut rng, &Cfg { metadata: true, wraps: false, blank_chains: false });
+    let mut pdb_recs = pdbgen::records(&mut rng, &Cfg { metadata: true, wraps: false, blank_chains: false, annotations: false });
     for _ in 0..40 {
         if pdb_recs.iter().filter(|r| matches!(r, pdbgen::Rec::Model(_))).count() >= 2 {
             break;
         }
-        pdb_recs = pdbgen::records(&mut rng, &Cfg { metadata: true, wraps: false, blank_chains: false });
+        pdb_recs = pdbgen::records(&mut rng, &Cfg { metadata: true, wraps: false, blank_chains: false, annotations: false });
     }
     {
         let mut first = true;
